@@ -1,6 +1,5 @@
 """C17 - text-interface solvers: legal command stream, replies in sync,
 faithful model.  The external solver is vf/refsolver.py."""
-import itertools
 import json
 import os
 import random
@@ -120,11 +119,7 @@ def truth(live):
             doms.append([R.UVal(t[1], i) for i in range(max(1, nu))])
         else:
             doms.append(R.all_values(t, 64))
-    for combo in itertools.product(*doms):
-        I = dict((s[0], v) for s, v in zip(syms, combo))
-        if all(R.evaluate(b, I) for b in live):
-            return I
-    return None
+    return R.find_model(live, syms, doms)
 
 
 class History(object):
